@@ -19,7 +19,7 @@ import (
 // C10 — delivered values stay intact until their resource bank is closed.
 
 const c10Rule = "(A) rapid draws of multi-block files of every codec (strings, bytes, pointers, slices, maps, nested structs; written by the library's encoder) read with a generated retention plan: " +
-	"each record's shallow copy and bank are kept and the bank is closed at a drawn later record, at the end, or never; after EVERY callback and at the end every retained record whose bank is still open must denote what it denoted when delivered; " +
+	"each record's shallow copy and bank are kept and the bank is closed at a drawn later record, at the end, or never; the callback may stop the read with an error at a drawn record, and a second read of the file may follow; after EVERY callback and at the end every retained record whose bank is still open must denote what it denoted when delivered; " +
 	"(B) rapid draws of histories on the bank API over several ReadBufs: Alloc(type) then fill, NextAsString / ToString, ExtractResourceBank, Close (once per bank), new ReadBuf, forced GC; " +
 	"every pointer from Alloc is all-zero on return and disjoint from every live allocation, every live allocation and interned string still holds what was put there after every step; " +
 	"non-trivial = (A) a retained record compared after a later block was decoded and a bank was closed and re-obtained, (B) an allocation made after a Close while another bank is live; distinct by case JSON hash"
@@ -31,6 +31,12 @@ type retainCase struct {
 	Enc     encCase `json:"enc"`
 	CloseAt []int   `json:"close_at"` // per record: -1 never, otherwise the number of records after which its bank is closed (1 = right after the next record)
 	GCEvery int     `json:"gc_every"` // force a collection every n callbacks (0 = never): empties the sync.Pool now and then
+	// StopAt: the callback returns an error at this record (-1 never): the
+	// caller still owns every bank it was handed, including that record's.
+	StopAt int `json:"stop_at"`
+	// SecondRead: after ReadFile returned, read the file again (banks come out
+	// of the pool again) and re-verify what the first read retained.
+	SecondRead bool `json:"second_read"`
 }
 
 func init() {
@@ -94,15 +100,45 @@ func runC10A(c retainCase) (bool, []string, error) {
 		if failure != nil {
 			return failure
 		}
+		if c.StopAt >= 0 && n-1 == c.StopAt {
+			return errSentinel
+		}
 		return nil
 	})
 	if failure != nil {
 		return true, nil, failure
 	}
-	if rerr != nil {
+	if rerr != nil && !(c.StopAt >= 0 && rerr == errSentinel) {
 		return false, nil, fmt.Errorf("ReadFile: %v", rerr)
 	}
 	verify("after ReadFile returned")
+	if c.SecondRead && failure == nil {
+		// more decoding after the first read ended (possibly early): new banks are
+		// taken from the pool, blocks are decompressed into fresh buffers
+		var sink []spec.AbsVal
+		var banks2 []*avro.ResourceBank
+		k := 0
+		err2 := avro.ReadFile(bytes.NewReader(file), reflect.New(typ).Elem().Interface(), func(val unsafe.Pointer, rb *avro.ResourceBank) error {
+			sink = append(sink, spec.Abs(ts, false, reflect.NewAt(typ, val).Elem()))
+			banks2 = append(banks2, rb)
+			k++
+			if k%2 == 0 {
+				// close every other bank of the second read right away
+				rb.Close()
+				banks2 = banks2[:len(banks2)-1]
+			}
+			verify(fmt.Sprintf("during the second read, record %d", k-1))
+			if failure != nil {
+				return failure
+			}
+			return nil
+		})
+		if failure == nil && err2 != nil {
+			return false, nil, fmt.Errorf("second ReadFile: %v", err2)
+		}
+		verify("after the second read")
+		runtime.KeepAlive(banks2)
+	}
 	if failure != nil {
 		return true, nil, failure
 	}
@@ -139,6 +175,11 @@ func drawRetain(t *rapid.T) retainCase {
 		}
 	}
 	c.GCEvery = gen.Uniform(t, "gcEvery", 4)
+	c.StopAt = -1
+	if gen.Uniform(t, "stop", 3) == 0 {
+		c.StopAt = gen.Uniform(t, "stopAt", n)
+	}
+	c.SecondRead = gen.Uniform(t, "secondRead", 2) == 0
 	return c
 }
 
